@@ -761,6 +761,11 @@ mod sync;
 #[cfg(feature = "sync")]
 #[cfg_attr(docsrs, doc(cfg(feature = "sync")))]
 pub use sync::{Cache, CacheBuilder};
+#[cfg(all(transparencies_stretto_verif, feature = "sync"))]
+pub(crate) mod sync_verif {
+    pub(crate) use super::sync::CacheProcessor as Processor;
+    pub use super::sync::{ItemDesc, ProcessorStep, VBranch};
+}
 
 #[cfg(feature = "async")]
 #[cfg_attr(docsrs, doc(cfg(feature = "async")))]
